@@ -57,3 +57,11 @@ def _c19(prop, tier, seed, replay):
 
 
 CHECKS["C19"] = _c19
+
+
+def _c17(prop, tier, seed, replay):
+    import fam_pure
+    return seqfamily.check(prop, fam_pure.split_family(), tier, seed, replay)
+
+
+CHECKS["C17"] = _c17
